@@ -579,3 +579,45 @@ def inline_param_rebinds(mod, tree, recorded):
             break
         ast.fix_missing_locations(f)
     return done
+
+
+# ---------------------------------------------------------------------------------------------------------------------
+# tail merged:  for ...: if c: A  else: B ;  S      is      for ...: if c: A ; S ; continue ;;  B ; S
+# ---------------------------------------------------------------------------------------------------------------------
+def _loop_ifelse(tree):
+    for loop in ast.walk(tree):
+        if isinstance(loop, (ast.For, ast.While)):
+            for k, st in enumerate(loop.body):
+                if isinstance(st, ast.If) and st.orelse and not (len(st.orelse) == 1 and isinstance(st.orelse[0], ast.If)) and k + 1 < len(loop.body):
+                    yield loop, k, st
+
+
+def loop_ifelse_of(tree):
+    return sorted({ast.dump(st.test) for _, _, st in _loop_ifelse(tree)})
+
+
+def load_loop_ifelse():
+    if not os.path.exists(IFS_TABLE):
+        return {}
+    return {k: set(v) for k, v in json.load(open(IFS_TABLE)).get("loop_ifelse", {}).items()}
+
+
+def split_merged_tail(tree, recorded):
+    n = 0
+    for loop, k, st in list(_loop_ifelse(tree)):
+        t = st.test
+        while isinstance(t, ast.UnaryOp) and isinstance(t.op, ast.Not):
+            t = t.operand
+        if ast.dump(st.test) in recorded or ast.dump(t) in recorded:
+            continue
+        tail = loop.body[k + 1:]
+        if len(tail) > 2 or any(isinstance(x, (ast.Break, ast.Continue, ast.Return, ast.Yield)) for s in tail for x in ast.walk(s)):
+            continue
+        if any(isinstance(s, (ast.Break, ast.Continue, ast.Return, ast.Raise)) for s in st.body[-1:] + st.orelse[-1:]):
+            continue
+        st.body = st.body + copy.deepcopy(tail) + [ast.copy_location(ast.Continue(), st)]
+        loop.body[k + 1:k + 1] = st.orelse
+        st.orelse = []
+        n += 1
+    ast.fix_missing_locations(tree)
+    return n
